@@ -180,13 +180,16 @@ var props = []propCfg{
 		DesignRef: "DESIGN.md section 4, C18",
 	},
 	{
-		ID: "C16", Pkg: "props/c16", Needs: []string{"fc"},
+		ID: "C16", Pkg: "props/c16", Needs: []string{"fc", "gocache"},
 		Tests: []testCfg{
 			{Name: "TestFaults", ShardsQ: 16, ShardsT: 16},
 			{Name: "TestTruncations", ShardsQ: 16, ShardsT: 16},
 			{Name: "TestMutants", Rapid: true, Quick: 4800, Thorough: 160000, ShardsQ: 16, ShardsT: 16},
+			{Name: "TestScale", Rapid: true, Quick: 480, Thorough: 8000, ShardsQ: 16, ShardsT: 16},
+			{Name: "TestKnown", ShardsQ: 1, ShardsT: 1},
+			{Name: "TestNativeFuzz", ShardsQ: 1, ShardsT: 1},
 		},
-		Rule:      "seeds: every samples/*.fo, build_sample_md.fo and the hand-kept programs in corpus/seeds. Mutants (rapid, 1..3 composed): truncation, token deletion/duplication/swap/replacement, indentation damage (+-k columns, tabs), an opener (comment, string, raw string, interpolation, brace, bracket, keyword) inserted anywhere or left open at end of file with/without final newline, raw bytes (NUL, 0xff, CR, partial UTF-8, BOM), line deletion/duplication/swap, a slice of another seed spliced in, span deletion, and a family of 18 self-referential definitions appended. Exhaustive parts: every truncation offset of the 4 (quick) / 14 (thorough) smallest seeds; a fixed list of argument-list faults (no arguments, missing input, directory as input, empty file, .fo after a failing .fo, .foi only), output-path faults (destination is a directory, a dangling symlink, a symlink to /dev/full; also as second file) and every opener left open at end of file. Oracle: fc ends within 15 s (re-confirmed alone with 120 s), is not killed by a signal and prints no Go runtime fatal error; exit 0 => every requested gen_*.go exists, is not the sentinel and equals what a second run in a fresh directory writes; exit != 0 => some text beyond the progress lines was printed and the sentinel at the offending (and every later) file's destination is intact. Non-trivial = rejected mutants whose first changed byte lies after the seed's first complete definition, accepted mutants that differ from the seed, and all fault cases; distinct = hash of the file content / case.",
+		Rule:      "seeds: every samples/*.fo, build_sample_md.fo and the hand-kept programs in corpus/seeds. Mutants (rapid, 1..3 composed): truncation, token deletion/duplication/swap/replacement, indentation damage (+-k columns, tabs), an opener (comment, string, raw string, interpolation, brace, bracket, keyword) inserted anywhere or left open at end of file with/without final newline, raw bytes (NUL, 0xff, CR, partial UTF-8, BOM), line deletion/duplication/swap, a slice of another seed spliced in, span deletion, and a family of 18 self-referential definitions appended. Exhaustive parts: every truncation offset of the 4 (quick) / 14 (thorough) smallest seeds; a fixed list of argument-list faults (no arguments, missing input, directory as input, empty file, .fo after a failing .fo, .foi only), output-path faults (destination is a directory, a dangling symlink, a symlink to /dev/full; also as second file) and every opener left open at end of file. Scale (rapid): 39 templates that repeat or nest one construct N times (nested parentheses / applications / not / slice literals / lambdas / if-else, operator and pipe chains, many lets / functions / parameters / record fields / union cases / match arms / package_info entries, long literals, identifiers, comments, lines, indentation, nested and long types), N drawn on a logarithmic scale up to a per-template bound at which fc's polynomial running time stays far below the time limit. Oracle: fc ends within 15 s (re-confirmed alone with 120 s), is not killed by a signal and prints no Go runtime fatal error; exit 0 => every requested gen_*.go exists, is not the sentinel and equals what a second run in a fresh directory writes; exit != 0 => some text beyond the progress lines was printed and the sentinel at the offending (and every later) file's destination is intact. Thorough tier only: 7 minutes of Go's native coverage-guided fuzzer on an in-process copy of the compiler (fc's Go files copied inside the scratch snapshot plus one fuzz target; pkg_all.foi, then the input, fresh global tables, 10 s watchdog), seeded with the same seeds and hostile constants; every input the fuzzer reports is re-decided with the real binary through the oracle above and only a confirmed one is a violation; executions are counted as evaluations, the inputs the fuzzer kept for new coverage as non-trivial. Non-trivial = rejected mutants whose first changed byte lies after the seed's first complete definition, accepted mutants that differ from the seed, and all fault cases; distinct = hash of the file content / case.",
 		Technique: "mutation-based fuzzing of valid programs driven by rapid (shrinkable), exhaustive truncation sweeps and fault enumeration, with a process-behaviour validity oracle",
 		Assumptions: []string{
 			"an ordinary Go panic message with non-zero exit is a diagnostic (the project documents that errors are panics); only runtime fatal errors, signals and hangs are not",
